@@ -388,12 +388,13 @@ def detach():
         setattr(owner, name, raw)
 
 
-def run_test_suite(repo="/repo"):
+def run_test_suite(repo=None):
     """The repository's own tests as a workload (their verdicts are not ours; only the monitored calls count)."""
     import contextlib
     import io
     import os
     import pytest
+    repo = repo or os.environ.get("VERIF_REPO", "/repo")
     buf = io.StringIO()
     cwd = os.getcwd()
     try:
